@@ -1,6 +1,7 @@
 package props
 
 import (
+	"fmt"
 	"github.com/pion/rtcp"
 
 	"verifharness/internal/core"
@@ -136,6 +137,76 @@ func tagSSRCs(r *core.Rand, p rtcp.Packet) []uint32 {
 	return want
 }
 
+// refDest is the reference DestinationSSRC list read off the value as it is (no tagging: equal
+// SSRCs in different slots stay equal).
+func refDest(p rtcp.Packet) []uint32 {
+	var want []uint32
+	switch v := p.(type) {
+	case *rtcp.SenderReport:
+		for _, rr := range v.Reports {
+			want = append(want, rr.SSRC)
+		}
+		want = append(want, v.SSRC)
+	case *rtcp.ReceiverReport:
+		for _, rr := range v.Reports {
+			want = append(want, rr.SSRC)
+		}
+	case *rtcp.SourceDescription:
+		for _, c := range v.Chunks {
+			want = append(want, c.Source)
+		}
+	case *rtcp.Goodbye:
+		want = append(want, v.Sources...)
+	case *rtcp.ApplicationDefined:
+		want = []uint32{v.SSRC}
+	case *rtcp.TransportLayerNack:
+		want = []uint32{v.MediaSSRC}
+	case *rtcp.RapidResynchronizationRequest:
+		want = []uint32{v.MediaSSRC}
+	case *rtcp.PictureLossIndication:
+		want = []uint32{v.MediaSSRC}
+	case *rtcp.SliceLossIndication:
+		want = []uint32{v.MediaSSRC}
+	case *rtcp.TransportLayerCC:
+		want = []uint32{v.MediaSSRC}
+	case *rtcp.FullIntraRequest:
+		for _, f := range v.FIR {
+			want = append(want, f.SSRC)
+		}
+	case *rtcp.ReceiverEstimatedMaximumBitrate:
+		want = append(want, v.SSRCs...)
+	case *rtcp.CCFeedbackReport:
+		for _, b := range v.ReportBlocks {
+			want = append(want, b.MediaSSRC)
+		}
+	case *rtcp.ExtendedReport:
+		want = append(want, v.SenderSSRC)
+		for _, b := range v.Reports {
+			switch x := b.(type) {
+			case *rtcp.LossRLEReportBlock:
+				want = append(want, x.SSRC)
+			case *rtcp.DuplicateRLEReportBlock:
+				want = append(want, x.SSRC)
+			case *rtcp.PacketReceiptTimesReportBlock:
+				want = append(want, x.SSRC)
+			case *rtcp.StatisticsSummaryReportBlock:
+				want = append(want, x.SSRC)
+			case *rtcp.VoIPMetricsReportBlock:
+				want = append(want, x.SSRC)
+			case *rtcp.DLRRReportBlock:
+				for _, d := range x.Reports {
+					want = append(want, d.SSRC)
+				}
+			}
+		}
+	case *rtcp.CompoundPacket:
+		if len(*v) > 0 {
+			want = refDest((*v)[0])
+		}
+	}
+	return want
+}
+
 func c10Call(cs *core.Case, p rtcp.Packet, want []uint32, aspect string, det func() core.W, kfs ...string) {
 	var got []uint32
 	panicked, val, stack := core.Guard(func() { got = p.DestinationSSRC() })
@@ -180,6 +251,56 @@ func runC10(c *core.Ctx) {
 				c10Call(cs, &cp, want, "round-trip/datagram/"+k.String(), det)
 			} else if len(ps) == 1 && gen.KindOf(ps[0]) == k {
 				c10Call(cs, ps[0], want, "round-trip/datagram/"+k.String(), det)
+			}
+		}
+	})
+	// values as generated, without a tag in every slot: SSRCs repeat (0, 1, all ones and magic words
+	// are frequent), neighbouring entries may be equal, one object may sit at two positions
+	c.Section("untagged", c.N(300000, 30000000), func(cs *core.Case) {
+		p := valueOf(cs, gen.Opts{Small: cs.R.Chance(1, 2), NoBig: true})
+		k := gen.KindOf(p)
+		want := refDest(p)
+		if len(want) > 0 {
+			cs.Distinct(valueDigest("u", p))
+		}
+		cs.Count("untagged/" + k.String())
+		c10Call(cs, p, want, "memory/"+k.String(), func() core.W { return core.W{"type": k.String(), "value": vdump(p)} })
+	})
+	// congestion-control feedback split over several blocks of one source, each continuing where the
+	// previous one ends, with block sizes at and around the maximum: every block has its entry
+	c.Section("ccfb-continuations", c.N(600, 20000), func(cs *core.Case) {
+		r := cs.R
+		v := &rtcp.CCFeedbackReport{SenderSSRC: r.B32(), ReportTimestamp: r.U32()}
+		ssrc := r.B32()
+		seq := r.B16()
+		for i := 1 + r.Intn(4); i > 0; i-- {
+			n := r.Pick(0, 1, 2, 3, 16382, 16383, 16384, 16384, 16384, r.Intn(40))
+			if r.Chance(1, 5) {
+				ssrc = r.B32()
+			}
+			begin := seq
+			if r.Chance(1, 6) {
+				begin += uint16(r.Pick(1, 65535, 16384))
+			}
+			v.ReportBlocks = append(v.ReportBlocks, rtcp.CCFeedbackReportBlock{MediaSSRC: ssrc, BeginSequence: begin, MetricBlocks: make([]rtcp.CCFeedbackMetricBlock, n)})
+			seq = begin + uint16(n)
+		}
+		want := refDest(v)
+		cs.Distinct(valueDigest("cc", want))
+		cs.Count("ccfb-continuations")
+		det := func() core.W {
+			shape := ""
+			for _, b := range v.ReportBlocks {
+				shape += fmt.Sprintf("{ssrc %#x begin %d metrics %d} ", b.MediaSSRC, b.BeginSequence, len(b.MetricBlocks))
+			}
+			return core.W{"type": "CCFeedbackReport", "blocks": shape}
+		}
+		c10Call(cs, v, want, "memory/CCFeedbackReport", det)
+		if b, err, pan := gMarshal(v); err == nil && pan == "" {
+			if own, oerr, opan := gUnmarshalOwn(gen.CCFB, cloneBytes(b)); oerr == nil && opan == "" {
+				// the library's num_reports dialect loses blocks with exactly one metric block (known
+				// finding KF2, C02's business): the decoded packet is judged against its own blocks
+				c10Call(cs, own, refDest(own), "round-trip/own/CCFeedbackReport", det)
 			}
 		}
 	})
